@@ -10,4 +10,5 @@ def run(tier, seed, replay):
         COMMON + ["-n", "50", "-blocks", "40"],
         COMMON + ["-n", "350", "-blocks", "60"],
         "Dispute_Settle_Trace keeps a shadow ledger per dispute family (coins that entered the dispute account: fees, escrowed stake; coins that left: burn, stake returned/awarded, refunds, voter rewards) and checks on every operation of recorded histories: execution only of resolved tallied disputes, exactly once, moving burn (half / all) + stake by result; refunds only to recorded payers, once, the pro-rata part floor(paid*(slash-burn)/feeTotal) liquid or into the stakes the fee came from, plus the awarded bond floor(paid*slash/feeTotal) on support; rewards only to voters after execution, once, from the pot, to the voter; no entitled claim fails for lack of funds; a recorded payer can always claim; when everything of a family is claimed at most dust (64 loya) of what entered remains. Scripted dispute stories drive all outcomes, payer sets (one, two, repeated, from bond), multi-round disputes, claim orders and repeats.",
-        ["refund of failed (underfunded, expired) disputes is only bounded, not quantified (candidate F-17: 5% refunded)", "voter reward shares are checked for once-only / from-pot / residual, not re-derived per group"])
+        ["refund of failed (underfunded, expired) disputes is only bounded, not quantified (candidate F-17: 5% refunded)", "voter reward shares are checked for once-only / from-pot / residual, not re-derived per group"],
+        scenarios=("Dispute_Settle_Trace", "dispute,hold"))
